@@ -404,11 +404,45 @@ fn proto_app(args: &[&str]) -> String {
     format!("{h:x} {}", model.join(","))
 }
 
+/// `graph <op;op;...> <e,e,...>`: ops `a:kind:source:target`, `r:kind:source:target`, `c`; answer: for each queried entity
+/// its graph renumbered by first appearance (`-` without index) and the number of graphs.
+fn graph(args: &[&str]) -> String {
+    use bevy_replicon::server::verif_hooks::related::Graph;
+    let ent = |s: &str| Entity::from_raw(num(s) as u32);
+    let mut g = Graph::default();
+    for op in args[0].split(';').filter(|o| !o.is_empty() && *o != "-") {
+        let f: Vec<&str> = op.split(':').collect();
+        match f[0] {
+            "a" => g.add(num(f[1]) as u8, ent(f[2]), ent(f[3])),
+            "r" => g.remove(num(f[1]) as u8, ent(f[2]), ent(f[3])),
+            _ => g.clear(),
+        }
+    }
+    let qs: Vec<Entity> = args[1].split(',').map(ent).collect();
+    let (idx, count) = g.indices(&qs);
+    let mut seen: Vec<usize> = Vec::new();
+    let labels: Vec<String> = idx
+        .iter()
+        .map(|i| match i {
+            None => "-".to_string(),
+            Some(i) => {
+                let pos = seen.iter().position(|x| x == i).unwrap_or_else(|| {
+                    seen.push(*i);
+                    seen.len() - 1
+                });
+                pos.to_string()
+            }
+        })
+        .collect();
+    format!("{} count={count}", labels.join(","))
+}
+
 fn handle(cmd: &str, args: &[&str]) -> String {
     match cmd {
         "ent_dec" => ent_dec(args),
         "ent_enc" => ent_enc(args),
         "tcmp" => tcmp(args),
+        "graph" => graph(args),
         "proto_app" => proto_app(args),
         "scene" => scene_kernel::scene_cmd(args),
         "vis" => vis(args),
